@@ -107,6 +107,10 @@ func (i *interpreter) ensureInit(pkg *ssa.Package) {
 		if g, ok := m.(*ssa.Global); ok {
 			if _, ok := i.globals[g]; !ok {
 				cell := zero(mustDeref(g.Type()))
+				if g.String() == "crypto/rand.Reader" {
+					var obj value = structure{}
+					cell = iface{t: types.NewPointer(pkg.Type("reader").Type()), v: &obj}
+				}
 				i.globals[g] = &cell
 			}
 		}
@@ -464,6 +468,16 @@ func callSSA(i *interpreter, caller *frame, callpos token.Pos, fn *ssa.Function,
 			p.res.Intrinsics[name]++
 			return ext(fr, args)
 		}
+		if ext := summaries[name]; ext != nil && !p.noSumm {
+			p.res.Intrinsics["summary:"+name]++
+			return ext(fr, args)
+		}
+		if p.summ[name] {
+			if ext := optSummaries[name]; ext != nil {
+				p.res.Intrinsics["summary:"+name]++
+				return ext(fr, args)
+			}
+		}
 	}
 	pkg := fnPkgPath(fn)
 	if fn.Synthetic == "package initializer" && (!i.eng.execPkg(pkg) || noInitPkgs[pkg]) {
@@ -472,13 +486,14 @@ func callSSA(i *interpreter, caller *frame, callpos token.Pos, fn *ssa.Function,
 	if strings.HasPrefix(fn.Name(), "file_") && strings.HasSuffix(fn.Name(), "_init") && i.eng.inModule(pkg) {
 		return nil // protobuf-generated registration (reflection); the codec is modelled
 	}
-	if fn.Synthetic == "" || pkg != "" {
+	isWrapper := strings.HasPrefix(fn.Synthetic, "wrapper") || strings.HasPrefix(fn.Synthetic, "bound") || strings.HasPrefix(fn.Synthetic, "thunk")
+	if !isWrapper && (fn.Synthetic == "" || pkg != "") {
 		if ext := pkgIntrinsic(pkg, fn); ext != nil {
 			p.res.Intrinsics[name]++
 			return ext(fr, args)
 		}
 		if pkg != "" && !i.eng.execPkg(pkg) {
-			panic(unsupported("call to unmodelled function " + name))
+			panic(unsupported("call to unmodelled function " + name + " [" + fn.Synthetic + "]"))
 		}
 	}
 	if fn.Blocks == nil {
@@ -529,6 +544,10 @@ func runFrame(fr *frame) {
 			fr.visits = map[*ssa.BasicBlock]int{}
 		}
 		fr.visits[fr.block]++
+		if p.unwindAssume > 0 && fr.visits[fr.block] > p.unwindAssume && len(fr.block.Preds) > 1 {
+			p.res.Assumes["unwinding-assumption"]++
+			p.finish("pruned", fmt.Sprintf("unwinding assumption %d in %s", p.unwindAssume, fr.fn))
+		}
 		if fr.visits[fr.block] > p.eng.MaxUnwind {
 			p.raise(fr, "bound", fmt.Sprintf("unwinding bound %d exceeded in %s block %d", p.eng.MaxUnwind, fr.fn, fr.block.Index))
 		}
